@@ -226,16 +226,20 @@ class World:
             before = snapshot(self.sk[j], self.kind) if j != i else None
             sut(sk.merge, self.sk[j])
             self.seen[i] |= self.seen[j]
+            touched = {i}
             if j != i:
                 if not snap_equal(before, snapshot(self.sk[j], self.kind)):
-                    raise Violation(f"merge({i}<-{j}) modified the argument sketch", "merge-mutates-other")
+                    # whether the argument may change is C09's statement; here the argument is simply
+                    # re-checked against its own (unchanged) model like any touched sketch
+                    self.flags.add("merge_changed_argument")
+                    touched.add(j)
                 self.true[i] = self.true[i] + self.true[j]
                 self.total[i] += self.total[j]
             else:
                 self.true[i] = self.true[i] + self.true[i]
                 self.total[i] *= 2
             self.flags.add("merge")
-            return {i}
+            return touched
         if op == "save_load":
             self.nfile += 1
             path = os.path.join(self.tmp, f"s{self.nfile}.npz")
